@@ -158,6 +158,8 @@ pub struct Engine {
     pub seed: u64,
     pub threads: usize,
     pub strict: bool,
+    /// proptest shrink budget (lower for checks whose cases are expensive)
+    pub max_shrink_iters: std::sync::atomic::AtomicU32,
     start: Instant,
     evaluations: AtomicU64,
     nontrivial_counted: AtomicU64,
@@ -350,6 +352,7 @@ impl Engine {
             seed,
             threads,
             strict: false,
+            max_shrink_iters: std::sync::atomic::AtomicU32::new(4000),
             start: Instant::now(),
             evaluations: AtomicU64::new(0),
             nontrivial_counted: AtomicU64::new(0),
@@ -601,7 +604,7 @@ impl Engine {
                     config.cases = per as u32;
                     config.failure_persistence = None;
                     config.rng_seed = RngSeed::Fixed(self.sub_seed(name, shard));
-                    config.max_shrink_iters = 4000;
+                    config.max_shrink_iters = self.max_shrink_iters.load(Ordering::SeqCst);
                     config.max_shrink_time = 0;
                     config.verbose = 0;
                     config.source_file = None;
